@@ -248,6 +248,43 @@ def _aux_guard(test):
     return "aux_ndims" in t or "aux_data" in t
 
 
+def _says_no_aux(test, outcome):
+    """Does `test` evaluating to `outcome` establish that the object has no
+    auxiliary data (aux_ndims <= 0 / aux_data is None)?"""
+    while isinstance(test, ast.UnaryOp) and isinstance(test.op, ast.Not):
+        test, outcome = test.operand, not outcome
+    if isinstance(test, ast.Compare) and len(test.ops) == 1:
+        left, op, right = test.left, test.ops[0], test.comparators[0]
+        ls, rs = dotted(left), dotted(right)
+        if ls.endswith("aux_ndims") and isinstance(right, ast.Constant):
+            k = right.value
+            if isinstance(op, ast.Gt) and k == 0 or \
+                    isinstance(op, ast.GtE) and k == 1 or \
+                    isinstance(op, ast.NotEq) and k == 0:
+                return not outcome
+            if isinstance(op, ast.LtE) and k == 0 or \
+                    isinstance(op, ast.Lt) and k == 1 or \
+                    isinstance(op, ast.Eq) and k == 0:
+                return outcome
+        if rs.endswith("aux_ndims") and isinstance(left, ast.Constant):
+            k = left.value
+            if isinstance(op, ast.Lt) and k == 0 or \
+                    isinstance(op, ast.LtE) and k == 1:
+                return not outcome
+            if isinstance(op, ast.GtE) and k == 0 or \
+                    isinstance(op, ast.Eq) and k == 0:
+                return outcome
+        if ls.endswith("aux_data") and isinstance(right, ast.Constant) \
+                and right.value is None:
+            if isinstance(op, ast.Is):
+                return outcome
+            if isinstance(op, ast.IsNot):
+                return not outcome
+    if isinstance(test, ast.Attribute) and test.attr in ("aux_ndims",):
+        return not outcome
+    return False
+
+
 def rule_s2(ctx, min_writers=4):
     r = ctx.r
     r.rule("S2", "after a write to self.proj_data (assignment, element "
@@ -296,6 +333,9 @@ def rule_s2(ctx, min_writers=4):
                                       for x in ast.walk(b)
                                       if isinstance(x, ast.stmt))]
                     if guards:
+                        ok = True
+                    elif any(isinstance(t, ast.expr) and _says_no_aux(t, o)
+                             for t, o, s in p.conds):
                         ok = True
                 if not ok:
                     bad = (ev[last], p)
@@ -452,6 +492,7 @@ def rule_p1(ctx, ops=None):
 
 
 def rule_roles(ctx, with_inverse=True):
+    from ..norm import forward_subst
     r = ctx.r
     r.rule("RO", "_apply_to_data passes the object's data as the left "
                  "factor and the matrix as the right factor to "
@@ -459,109 +500,111 @@ def rule_roles(ctx, with_inverse=True):
                  "self.unit_ndims) in that order and forwards `broadcast`; "
                  "the dual action uses inverse-transpose; inv() returns "
                  "the class of self built from utils.invert(self.matrix); "
-                 "__matmul__ is apply")
+                 "__matmul__ is apply (locals are substituted forward and "
+                 "the `dual` flag specialised, so the statement form does "
+                 "not matter)")
     f = ctx.p.get_function(PROJ, "Transformation._apply_to_data")
     r.analysed(f)
-    calls = [n for n in ast.walk(f.node) if isinstance(n, ast.Call)
-             and dotted(n.func).endswith("matrix_product")]
-    if len(calls) != 1:
-        raise AnalysisError("_apply_to_data: matrix_product call not found")
-    c = calls[0]
     data_p, bc_p, und_p = f.params[1], f.params[2], f.params[3]
-    args = [dotted(a) for a in c.args]
-    kw = {k.arg: dotted(k.value) for k in c.keywords}
-    # normalise keyword passing to the positional order of matrix_product
-    order = ["array1", "array2", "unit_axis_1", "unit_axis_2"]
-    for i, nm in enumerate(order):
-        if len(args) == i and nm in kw:
-            args.append(kw[nm])
-    mk = kw.get("broadcast", args[4] if len(args) > 4 else None)
-    # matrix local derives from self.matrix / self.proj_data
-    mat_defs = [n for n in ast.walk(f.node) if isinstance(n, ast.Assign)
-                and dotted(n.targets[0]) == (args[1] if len(args) > 1 else "")]
-    mat_ok = any("self.matrix" in dotted(d.value) or "self.proj_data"
-                 in dotted(d.value) for d in mat_defs) or (
-        len(args) > 1 and args[1] in ("self.matrix", "self.proj_data"))
-    problems = []
-    if not (len(args) >= 4 and args[0] == data_p):
-        problems.append(f"left factor is `{args[0] if args else None}`, not "
-                        f"the object's data `{data_p}`")
-    if not mat_ok:
-        problems.append("right factor is not derived from self.matrix")
-    if len(args) >= 4 and not (args[2] == und_p and args[3] == "self.unit_ndims"):
-        problems.append(f"unit ndims are passed as ({args[2]}, {args[3]}) "
-                        f"instead of ({und_p}, self.unit_ndims)")
-    if mk != bc_p:
-        problems.append(f"broadcast mode is not forwarded (got {mk})")
-    if problems:
-        r.violation("RO", f"{f.fq}|roles", loc(f, c), dotted(c)[:160],
-                    "; ".join(problems) + ": rows of the object are no "
-                    "longer multiplied by the row matrix of the "
-                    "transformation with the documented axis order",
-                    instance="_apply_to_data:roles")
-    else:
-        r.ok("RO", "_apply_to_data:roles", loc(f, c), dotted(c)[:120],
-             "data @ matrix with (unit_ndims, self.unit_ndims), broadcast "
-             "forwarded")
-    # dual arm
-    for n in ast.walk(f.node):
-        if isinstance(n, ast.If) and eval_test(n.test, {"dual": True}) is True:
-            for s in n.body:
-                if isinstance(s, ast.Assign):
-                    ops = ops_chain(s.value, dotted(s.targets[0]))
-                    if ops is not None and sorted(ops) == ["T", "inv"]:
-                        r.ok("RO", "_apply_to_data:dual", loc(f, s),
-                             norm_stmt(s), "dual data acts by the inverse "
-                             "transpose")
-                    else:
-                        r.violation("RO", f"{f.fq}|dual", loc(f, s),
-                                    norm_stmt(s),
-                                    "dual (covariant) data must transform "
-                                    "by the inverse transpose of the matrix",
-                                    instance="_apply_to_data:dual")
+    dual_p = f.params[4] if len(f.params) > 4 else "dual"
+    order = ["array1", "array2", "unit_axis_1", "unit_axis_2", "broadcast"]
+    for dual in (False, True):
+        rets, _ = forward_subst(f.node, {dual_p: dual})
+        calls = [n for e in rets if e is not None for n in ast.walk(e)
+                 if isinstance(n, ast.Call)
+                 and dotted(n.func).endswith("matrix_product")]
+        if len(calls) != 1:
+            raise AnalysisError("_apply_to_data: matrix_product call not "
+                                f"found on the return path (dual={dual})")
+        c = calls[0]
+        args = list(c.args)
+        kw = {k.arg: k.value for k in c.keywords}
+        for i, nm in enumerate(order):
+            if len(args) == i and nm in kw:
+                args.append(kw[nm])
+        problems = []
+        inst = "_apply_to_data:dual" if dual else "_apply_to_data:roles"
+        if len(args) < 4:
+            problems.append("matrix_product is not given both factors and "
+                            "both unit ranks")
+        else:
+            if dotted(args[0]) != data_p:
+                problems.append(f"left factor is `{dotted(args[0])}`, not "
+                                f"the object's data `{data_p}`")
+            ops = ops_chain(args[1], "self.matrix")
+            if ops is None:
+                problems.append("right factor is not derived from "
+                                "self.matrix by inverse / transpose")
+            elif not dual and sorted(ops) != []:
+                problems.append("right factor is not self.matrix itself "
+                                f"(operations {ops})")
+            elif dual and sorted(ops) != ["T", "inv"]:
+                problems.append("dual (covariant) data must transform by "
+                                "the inverse transpose of the matrix "
+                                f"(operations applied: {ops})")
+            if not (dotted(args[2]) == und_p
+                    and dotted(args[3]) == "self.unit_ndims"):
+                problems.append(
+                    f"unit ndims are passed as ({dotted(args[2])}, "
+                    f"{dotted(args[3])}) instead of ({und_p}, "
+                    "self.unit_ndims)")
+            mk = dotted(args[4]) if len(args) > 4 else None
+            if mk != bc_p:
+                problems.append(f"broadcast mode is not forwarded (got {mk})")
+        if problems:
+            r.violation("RO", f"{f.fq}|{'dual' if dual else 'roles'}",
+                        loc(f, f.node), dotted(c)[:160],
+                        "; ".join(problems) + ": rows of the object are no "
+                        "longer multiplied by the row matrix of the "
+                        "transformation with the documented axis order",
+                        instance=inst)
+        else:
+            r.ok("RO", inst, loc(f, f.node), dotted(c)[:120],
+                 "data @ matrix with (unit_ndims, self.unit_ndims), "
+                 "broadcast forwarded" if not dual else
+                 "dual data acts by the inverse transpose")
     if not with_inverse:
         return
     # inv
     g = ctx.p.get_function(PROJ, "Transformation.inv")
     r.analysed(g)
-    rets = [n for n in ast.walk(g.node) if isinstance(n, ast.Return)]
+    rets, _ = forward_subst(g.node)
     ok = False
-    if len(rets) == 1 and isinstance(rets[0].value, ast.Call) \
-            and dotted(rets[0].value.func) in ("self.__class__", "type(self)") \
-            and rets[0].value.args:
-        a = rets[0].value.args[0]
-        if isinstance(a, ast.Call) and dotted(a.func) in (
-                "utils.invert", "np.linalg.inv") and a.args \
-                and dotted(a.args[0]) in ("self.matrix", "self.proj_data"):
+    if len(rets) == 1 and isinstance(rets[0], ast.Call) \
+            and dotted(rets[0].func) in ("self.__class__", "type(self)") \
+            and rets[0].args:
+        a = rets[0].args[0]
+        if ops_chain(a, "self.matrix") == ["inv"]:
             ok = True
-        cv = [k for k in rets[0].value.keywords if k.arg == "column_vectors"
+        cv = [k for k in rets[0].keywords if k.arg == "column_vectors"
               and const_value(k.value) is True]
         if cv:
             ok = False
     if ok:
-        r.ok("RO", "Transformation.inv", loc(g, rets[0]), norm_stmt(rets[0]),
+        r.ok("RO", "Transformation.inv", loc(g, g.node),
+             dotted(rets[0])[:120],
              "same class, inverse of the stored row matrix, row convention")
     else:
-        st = rets[0] if rets else g.node
-        r.violation("RO", f"{g.fq}|inv", loc(g, st), norm_stmt(st)[:160]
-                    if isinstance(st, ast.stmt) else "inv",
+        r.violation("RO", f"{g.fq}|inv", loc(g, g.node),
+                    dotted(rets[0])[:160] if rets and rets[0] is not None
+                    else "inv",
                     "inv() does not return self.__class__(utils.invert("
                     "self.matrix)) in the row convention: A.inv() @ (A @ X) "
                     "is not X", instance="Transformation.inv")
     h = ctx.p.get_function(PROJ, "Transformation.__matmul__")
     r.analysed(h)
-    rets = [n for n in ast.walk(h.node) if isinstance(n, ast.Return)]
-    if len(rets) == 1 and isinstance(rets[0].value, ast.Call) \
-            and dotted(rets[0].value.func) == "self.apply" \
-            and rets[0].value.args \
-            and dotted(rets[0].value.args[0]) == h.params[1] \
-            and not rets[0].value.keywords and len(rets[0].value.args) == 1:
-        r.ok("RO", "Transformation.__matmul__", loc(h, rets[0]),
-             norm_stmt(rets[0]), "T @ X is T.apply(X)")
+    rets, _ = forward_subst(h.node)
+    if len(rets) == 1 and isinstance(rets[0], ast.Call) \
+            and dotted(rets[0].func) == "self.apply" \
+            and rets[0].args \
+            and dotted(rets[0].args[0]) == h.params[1] \
+            and not rets[0].keywords and len(rets[0].args) == 1:
+        r.ok("RO", "Transformation.__matmul__", loc(h, h.node),
+             dotted(rets[0]), "T @ X is T.apply(X)")
     else:
-        st = rets[0] if rets else h.node
-        r.violation("RO", f"{h.fq}|matmul", loc(h, st),
-                    norm_stmt(st)[:120] if isinstance(st, ast.stmt) else "",
+        r.violation("RO", f"{h.fq}|matmul", loc(h, h.node),
+                    dotted(rets[0])[:120] if rets and rets[0] is not None
+                    else "",
                     "T @ X is not self.apply(X) with default elementwise "
                     "broadcasting", instance="Transformation.__matmul__")
 
@@ -592,14 +635,26 @@ def rule_bm1(ctx):
     if not binds:
         raise AnalysisError("Subspace.intersect: operand binding not found")
     targets = {dotted(t) for n, _ in binds for t in n.targets[0].elts}
+    # an arm may also bind the operands one by one: p1 = self.proj_data
+    for n in ast.walk(f.node):
+        if isinstance(n, ast.Assign) and len(n.targets) == 1 \
+                and dotted(n.targets[0]) in targets \
+                and not isinstance(n.value, ast.Call):
+            binds.append((n, [dotted(n.value)]))
     sources = {s for _, ss in binds for s in ss} - targets
-    last = max((n.end_lineno, n.end_col_offset) for n, _ in binds)
+    # reads inside the binding statements themselves (one per broadcast
+    # arm, in any order) are the binding; everything after the first
+    # binding statement must use the bound names
+    first = min((n.lineno, n.col_offset) for n, _ in binds)
+    inside = {id(x) for n, _ in binds for x in ast.walk(n)}
     stale = []
+    sources = {x for x in sources if "proj_data" in x or "." not in x}
     for n in ast.walk(f.node):
         if isinstance(n, (ast.Attribute, ast.Name)) \
                 and isinstance(getattr(n, "ctx", None), ast.Load) \
                 and dotted(n) in sources \
-                and (n.lineno, n.col_offset) > last:
+                and id(n) not in inside \
+                and (n.lineno, n.col_offset) > first:
             stale.append(n)
     if not stale:
         r.ok("BM1", "Subspace.intersect", loc(f, binds[0][0]), "",
